@@ -226,3 +226,25 @@ also5("C15", "Client.OpenStream is requested only when the position lookup succe
 also5("C16", "IsOpen tells the truth (open flag protocol).")
 also5("C18", "the one-by-one close loop runs in the branch where the version gate is set, the concurrent close where it is not.")
 also5("C20", "no success without confirmation in the create-then-upsert ladder.")
+
+# ---- rules added while triaging the mutation survey (third pass: the Couchbase membership mechanism, the client's wiring, the wrappers' steps)
+def also6(pid, text):
+    t, x, r = CLAIMS[pid]
+    CLAIMS[pid] = (t, x + " ALSO DECIDED (mutation survey, third pass): " + text, r)
+
+WIRING = ("the client's start and close paths call by call (Stream.Open and the fatal membership subscription unconditional; health check, leader election, heart-beat and monitor "
+          "started and stopped under exactly their configuration switch, polarity included; Commit is Stream.Save; SetMetadata installs the supplied store; newDcp applies the defaults "
+          "before any other module call and returns every error)")
+also6("C02", "the sampled high sequence number is the largest any node/collection reported (all nodes 1..NumServers() asked, merge keeps the maximum).")
+also6("C09", "GetInfo of every bus-fed membership returns the recorded numbering or waits for the first one (exhaustive).")
+also6("C10", "the Couchbase mechanism itself: constructor registers then starts heart-beat and monitor loops that call their worker on every iteration; isClusterChanged is exact "
+      "(0..2 instances each, exhaustive over id equalities); a monitor round records live instances at their own index, skips missing documents, stops the client on any other error, "
+      "then changed → updateIndex under the read CAS → rebalance(same list) | CAS mismatch → next round; registration and instance-document ladders step by step; a round parses only what it "
+      "read; GetInfo/first-announcement hand-over of every bus-fed membership (exhaustive).")
+also6("C11", "the first numbering is handed to a waiting GetInfo iff nothing was recorded before (exhaustive, every bus-fed membership).")
+also6("C13", WIRING + ".")
+also6("C15", "the high sequence numbers the resume guard compares with are complete and maximal; " + WIRING + ".")
+also6("C16", "lag is computed against the maximal high sequence number (the merge rule of C15).")
+also6("C17", "the defaults are applied first in newDcp (part of the wiring rule of C13).")
+also6("C19", "the checker is started iff HealthCheck.Disabled is false and stopped by close under the same switch (the wiring rule of C13).")
+also6("C20", "every fallible step around an operation (configuration snapshot, id resolution, dispatch, AsyncOp.Wait, errgroup Wait) has its error reported on every path on which it can be non-nil.")
